@@ -13,7 +13,7 @@ def digitChar (d : Nat) : Char := Char.ofNat (48 + d)
 
 /-- decimal digits of a natural number -/
 def natDigits (n : Nat) : List Char :=
-  if h : n < 10 then [digitChar n] else natDigits (n / 10) ++ [digitChar (n % 10)]
+  if _h : n < 10 then [digitChar n] else natDigits (n / 10) ++ [digitChar (n % 10)]
 termination_by n
 decreasing_by omega
 
